@@ -157,7 +157,16 @@ func (ch c19) server(cfg c19cfg) *hs.Env {
 		// a second, different hook option registered behind it must not take its place
 		opts = append(opts, wire.CloseConn(func(ctx context.Context) error { return nil }))
 	}
-	opts = append(opts, wire.GlobalParameters(wire.Parameters{"application_name": "verif", "search_path": "tenant_7, public", "tenant.region": "eu-west", "datestyle": "ISO, DMY", "crdb_version": "verif 1.0"}))
+	gp := wire.Parameters{"application_name": "verif", "search_path": "tenant_7, public", "tenant.region": "eu-west", "datestyle": "ISO, DMY", "crdb_version": "verif 1.0"}
+	// (the number of configured parameters varies with the configuration: 5 .. 11)
+	extra := cfg.N
+	if cfg.Hook {
+		extra += 3
+	}
+	for j := 0; j < extra%7; j++ {
+		gp[wire.ParameterStatus(fmt.Sprintf("tenant.setting_%d", j))] = fmt.Sprintf("value %d", j)
+	}
+	opts = append(opts, wire.GlobalParameters(gp))
 	check := func(ctx context.Context, where string) {
 		st := c19connOf(ctx).User.(*c19conn)
 		if ctx.Err() != nil {
@@ -263,6 +272,11 @@ func (ch c19) Run(c *core.Ctx) {
 				ch.runConn(c, env, cfg, ending, rng)
 			}
 		}
+		// sixteen users start up on this server at the same moment, round after round (the transport yields at
+		// every read and write): each is told its own session_authorization and finds it in its contexts
+		if ci%3 == 1 && cfg.FailAt < 0 && !cfg.Auth && c.Begin(ci*10000+9100) && c.NViol() < 10 {
+			ch.startupStorm(c, env, cfg, ci)
+		}
 		// the same on a server with its timeouts set short, for clients that rest before their first command:
 		// the context a command gets is live while the command runs, however old the connection is
 		if ci%5 == 2 && cfg.FailAt < 0 && !cfg.Auth {
@@ -325,6 +339,50 @@ func (ch c19) restConn(c *core.Ctx, env *hs.Env, cfg c19cfg, variant int) {
 	}
 }
 
+func (ch c19) startupStorm(c *core.Ctx, env *hs.Env, cfg c19cfg, ci int) {
+	rounds := 12
+	if c.Tier == "thorough" {
+		rounds = 300
+	}
+	for r := 0; r < rounds && c.NViol() < 10; r++ {
+		var wg sync.WaitGroup
+		start := make(chan struct{})
+		for k := 0; k < 16; k++ {
+			wg.Add(1)
+			go func(k int) {
+				defer wg.Done()
+				st := &c19conn{app: "storm", user: fmt.Sprintf("storm-%d-%d-%d", ci, r, k), db: "db"}
+				conn := tr.NewConn(st)
+				conn.Yield = tr.YieldFn(uint64(c.Seed)*7919 + uint64(ci*100000+r*100+k))
+				env.L.DialConn(conn)
+				<-start
+				conn.Send(append(pg.Startup([][2]string{{"options", ""}, {"user", st.user}, {"application_name", st.app}, {"database", st.db}}), pg.Query("ok")...))
+				conn.CloseWrite()
+				if !conn.WaitClosed() {
+					c.Inconclusive("C19 start-up storm: connection did not close")
+					return
+				}
+				msgs, _, _ := pg.ParseStream(conn.Out())
+				told := "<not announced>"
+				for _, m := range msgs {
+					if m.T == 'S' && m.Key == "session_authorization" {
+						told = m.Val
+					}
+				}
+				c.Count("simultaneous_startups_of_distinct_users", 1)
+				if told != st.user {
+					c.Violate("context", "a connection starting up next to others is told another session_authorization than its user", fmt.Sprintf("user %s was told %q; config %+v", st.user, told, cfg), nil)
+				} else if len(st.problems) > 0 {
+					c.Violate("context", normDigits(st.problems[0]), fmt.Sprint(st.problems), map[string]any{"config": fmt.Sprintf("%+v", cfg)})
+				}
+			}(k)
+		}
+		close(start)
+		wg.Wait()
+	}
+	c.Eval(fmt.Sprintf("%+v startup storm", cfg), true)
+}
+
 func (ch c19) runConn(c *core.Ctx, env *hs.Env, cfg c19cfg, ending string, rng *core.Rng) {
 	st := &c19conn{}
 	cs := map[string]any{"config": fmt.Sprintf("%+v", cfg), "ending": ending}
@@ -345,6 +403,9 @@ func (ch c19) runConn(c *core.Ctx, env *hs.Env, cfg c19cfg, ending string, rng *
 		st.user = strings.Repeat("u", 60+rng.Intn(4)) + "é" + strings.Repeat("r", rng.Intn(50))
 		st.db = core.Pick(rng, []string{"db", strings.Repeat("d", 64), strings.Repeat("d", 63) + "ß" + strings.Repeat("b", 30)})
 		c.Count("connections_with_long_user_or_database_names", 1)
+	}
+	if st.user == "" && rng.Intn(2) == 0 {
+		st.user, st.db = fmt.Sprintf("usr%d", rng.Intn(1000000)), "db" // (connections served at the same time differ in their users)
 	}
 	if rng.Intn(5) == 1 {
 		// a connection from a local TCP peer whose application name ends in an address (what
